@@ -126,6 +126,9 @@ def add_extension(name, cfg):
 
 
 # state = (static position, num, issued names, initial namespace, started, dead, passes)
+DEAD = (0, 0, frozenset(), (), True, True, 0)
+
+
 def initial_state(cfg):
     return (0, 1, frozenset(), tuple(sorted(cfg.init.items())), False, False, 0)
 
@@ -146,7 +149,9 @@ def request(cfg, dev, state, bindings):
     ns.update(bindings)
 
     def done(result, issued=issued, dead=False):
-        return result, (spos, num, issued, init_t, started, dead, passes)
+        if dead:
+            return result, DEAD          # nothing of the old state can be observed any more
+        return result, (spos, num, issued, init_t, started, False, passes)
 
     def fail(kind):
         return done(kind, dead=bool(dev & DEV_N))
